@@ -81,7 +81,7 @@ def explicit(B, G, n, strings, custom=False, do_rho=True):
     rho = B.tensor(np.stack([rr, ri]))
     if custom:
         mats = {}
-        for L in "AB":
+        for L in ("AB" if custom != "diagonal-only" else ""):
             m = np.stack([B.params("U%s_re" % L, (2, 2)), B.params("U%s_im" % L, (2, 2))])
             mats[L] = B.tensor(m)
         # ... and a DIAGONAL user unitary S = diag(1, i): it leaves probabilities alone but not amplitudes
@@ -90,7 +90,7 @@ def explicit(B, G, n, strings, custom=False, do_rho=True):
         sm[0, 0, 0], sm[1, 1, 1] = O.frac(1), O.frac(1)
         mats["S"] = B.tensor(sm)
         ud = U_.create_dict(**mats)
-        G.fact("create_dict_keeps_defaults", set(ud.keys()) == set("XYZABS"), sorted(ud.keys()))
+        G.fact("create_dict_keeps_defaults", set(ud.keys()) == set("XYZS" + ("AB" if custom != "diagonal-only" else "")), sorted(ud.keys()))
     else:
         ud = None
     libdict = ud if ud is not None else st.unitary_dict
@@ -365,6 +365,8 @@ def jobs(tier):
     add("explicit-n1", "explicit", n=1, strings=all_strings(1))
     add("explicit-n2", "explicit", n=2, strings=all_strings(2))
     add("custom-n2", "explicit", n=2, strings=["AB", "XA", "BY", "AA", "SX", "ZS"], custom=True)
+    # a dictionary whose every entry is a concrete matrix (code that inspects the matrices - "is this one diagonal?" - can run)
+    add("custom-diagonal-n2", "explicit", n=2, strings=["SX", "ZS", "SS", "YS"], custom="diagonal-only")
     add("two-dictionaries-n2", "two_dictionaries", n=2, strings=["AX", "XA", "ZA"])
     if tier == "quick":
         add("explicit-n3", "explicit", n=3, strings=["XYZ", "ZYX", "YYX", "XZY", "ZZY", "YXX", "ZZZ", "YZY"])
